@@ -254,7 +254,7 @@ func zero(t types.Type) value {
 		}
 		return s
 	case *types.Chan:
-		panic("channels are not supported")
+		return nilChan{}
 	case *types.Map:
 		return (*omap)(nil)
 	case *types.Signature:
@@ -1445,3 +1445,6 @@ func cloneValue(v value) value {
 	}
 	return v
 }
+
+// nilChan is the only channel value the engine knows (channels are unsupported).
+type nilChan struct{}
